@@ -21,6 +21,7 @@
 package engine
 
 import (
+	"fmt"
 	"go/token"
 	"reflect"
 
@@ -107,7 +108,9 @@ func (r SliceReplacer) Replace(d data.Data, cl Changelog, pos token.Pos) (reflec
 		if err != nil {
 			return reflect.Value{}, err
 		}
-		v.Index(i).Set(item)
+		if err := assign(v.Index(i), item); err != nil {
+			return reflect.Value{}, err
+		}
 	}
 
 	return v, nil
@@ -143,7 +146,9 @@ func (r StructReplacer) Replace(d data.Data, cl Changelog, pos token.Pos) (refle
 		if err != nil {
 			return reflect.Value{}, err
 		}
-		v.Field(i).Set(fv)
+		if err := assign(v.Field(i), fv); err != nil {
+			return reflect.Value{}, err
+		}
 	}
 	return v, nil
 }
@@ -173,8 +178,21 @@ func (r InterfaceReplacer) Replace(d data.Data, cl Changelog, pos token.Pos) (re
 	}
 
 	v := reflect.New(r.Type).Elem()
-	v.Set(x)
+	if err := assign(v, x); err != nil {
+		return reflect.Value{}, err
+	}
 	return v, nil
+}
+
+// assign sets dst to src. It fails instead of panicking if the generated
+// value cannot be placed there: for example, when an expression metavariable
+// that stands for "foo()" is used where only an identifier is allowed.
+func assign(dst, src reflect.Value) error {
+	if !src.Type().AssignableTo(dst.Type()) {
+		return fmt.Errorf("cannot use %v where %v is expected", src.Type(), dst.Type())
+	}
+	dst.Set(src)
+	return nil
 }
 
 // ValueReplacer replace a value as-is.
